@@ -5,6 +5,7 @@
 import JinjaV.Wire.LRU
 import JinjaV.Wire.Loop
 import JinjaV.Wire.Stream
+import JinjaV.Wire.Macro
 
 open JinjaV
 
@@ -17,6 +18,7 @@ def dispatch (line : String) : Sx :=
     | "lru-lin" => Wire.LRU.handleLin args
     | "loop" => Wire.Loop.handle args
     | "stream" => Wire.Stream.handle args
+    | "macro" => Wire.Macro.handle args
     | _ => Sx.bad
   | _ => Sx.bad
 
